@@ -404,8 +404,9 @@ class Header(Field):
                 return 5
 
         else:
-            # old-format length
-            ##TODO: what if _llen needs to be (re)computed?
+            # old-format length: keep the width that was parsed, unless the length no longer fits in it
+            if self._llen and self.length >= (1 << (8 * self._llen)):
+                return 2 if self.length < 65536 else 4
             return self._llen
 
     @llen.register(int)
